@@ -58,6 +58,7 @@ Corresponding(c, cls, early) ==
          [] k = "extra_token" -> c.amb \/ noise # {}
          [] k = "unknown_kid" -> "UnknownSubBlock" \in cls
          [] k = "seqbad" -> noise # {}
+         [] k = "seqhalf" -> noise # {}
          [] k = "seqlen" -> noise = {}
          [] k = "file" -> CASE c.what = "no_version" -> "MissingVersionInfo" \in cls
                             [] c.what = "bad_version" -> "InvalidVersion" \in cls
